@@ -4,6 +4,11 @@ set -e
 cd "$(dirname "$0")/engine"
 export PATH=/opt/veriftools/go1.26.8/bin:$PATH GOPROXY=off GOSUMDB=off GOTOOLCHAIN=local GOFLAGS=-mod=mod
 mkdir -p ../bin ../evidence ../out
-TAGS=""
-if ls llir_*.go >/dev/null 2>&1 && [ -f .llir_ready ]; then TAGS="-tags llir"; fi
-go build $TAGS -o ../bin/bngsym.new . && mv ../bin/bngsym.new ../bin/bngsym
+if [ -f .llir_ready ]; then
+  go build -tags llir -o ../bin/bngsym.new . && mv ../bin/bngsym.new ../bin/bngsym
+else
+  # the LLVM-IR front end (llir_*.go) is not part of the build until it is marked ready
+  B=../bin/.build; rm -rf $B; mkdir -p $B
+  for f in *.go go.mod go.sum; do case $f in llir_*) ;; *) cp $f $B/;; esac; done
+  (cd $B && go build -o ../bngsym.new . ) && mv ../bin/bngsym.new ../bin/bngsym
+fi
